@@ -1137,6 +1137,31 @@ fn run(ctx: &RunCtx) {
     if ctx.child.is_none() {
         let _ = std::fs::remove_dir_all(&base);
     }
+    // the `darklua process` and `darklua minify` commands themselves (the binary ./check builds from
+    // /repo's working tree), on trees in which some files are faulty
+    match cli_binary() {
+        Some(bin) => {
+            let n_cli = ctx.tier.pick(240, 6_000);
+            let cli_base = ctx.verif_dir.join(".work/c11cli");
+            let _ = std::fs::create_dir_all(&cli_base);
+            ctx.search("commands", n_cli, 300, |tape, st| {
+                let mut t = Tape::new(tape);
+                let case = gen_cli_case(&mut t);
+                let Ok(dir) = tempfile::tempdir_in(&cli_base) else { return CaseResult::Discard("cannot create temp dir") };
+                st.class(&format!("command:{}", case.command));
+                st.class(&format!("faulty_files:{}", case.faulty.len().min(3)));
+                st.sample(|| case.to_json());
+                match check_cli(&bin, &case, dir.path()) {
+                    Ok(()) => CaseResult::Pass { nontrivial: (!case.faulty.is_empty() && case.faulty.len() < case.files.len()).then(|| hash_str(&case.to_json().to_string())) },
+                    Err(m) if m.starts_with("harness:") => CaseResult::Fail(Failure::new(format!("HARNESS PROBLEM (not a darklua defect): {}", m), case.to_json())),
+                    Err(m) => CaseResult::Fail(Failure::new(m, case.to_json())),
+                }
+            });
+            let _ = std::fs::remove_dir_all(&cli_base);
+            ctx.note(format!("the `darklua process` and `darklua minify` commands were run from {}", bin.display()));
+        }
+        None => ctx.note("the darklua commands were not exercised: no binary at DLV_DARKLUA_BIN (./check builds it)"),
+    }
     // symbolic links inside the input tree (a linked file, a linked directory): the files they lead to
     // are files under the input like any other
     let n_links = ctx.tier.pick(120, 1_200);
@@ -1284,6 +1309,126 @@ fn gen_cwd_case(t: &mut Tape) -> CwdCase {
     CwdCase { files, other, input, output }
 }
 
+/// the command-line binary built by ./check (DLV_DARKLUA_BIN), when it exists
+fn cli_binary() -> Option<PathBuf> {
+    let p = PathBuf::from(std::env::var("DLV_DARKLUA_BIN").ok()?);
+    p.is_file().then_some(p)
+}
+
+struct CliCase {
+    files: Vec<(String, String)>,
+    other: Vec<String>,
+    /// indexes of `files` whose content does not parse
+    faulty: Vec<usize>,
+    /// "minify" | "process"
+    command: String,
+}
+
+impl CliCase {
+    fn to_json(&self) -> Value {
+        json!({"kind": "commands", "files": self.files, "other": self.other, "faulty": self.faulty, "command": self.command})
+    }
+    fn from_json(v: &Value) -> Option<CliCase> {
+        Some(CliCase {
+            files: serde_json::from_value(v.get("files")?.clone()).ok()?,
+            other: serde_json::from_value(v.get("other")?.clone()).ok()?,
+            faulty: serde_json::from_value(v.get("faulty")?.clone()).ok()?,
+            command: v.get("command")?.as_str()?.to_string(),
+        })
+    }
+}
+
+fn gen_cli_case(t: &mut Tape) -> CliCase {
+    let base = gen_cwd_case(t);
+    let mut files = base.files;
+    let mut faulty = vec![];
+    for (i, f) in files.iter_mut().enumerate() {
+        if t.bool(70) {
+            f.1 = broken_syntax(t, i, &f.0);
+            faulty.push(i);
+        } else {
+            f.1 = format!("-- file {}\nlocal value = {}\n\nreturn value + {}\n", i, i, t.choose(9));
+        }
+    }
+    CliCase { files, other: base.other, faulty, command: if t.bool(128) { "minify" } else { "process" }.to_string() }
+}
+
+const CLI_CONFIG: &str = "{ rules: [], generator: \"dense\" }";
+
+fn check_cli(bin: &Path, case: &CliCase, dir: &Path) -> Result<(), String> {
+    let io = |e: std::io::Error| format!("harness: {}", e);
+    let root = dir.join("in");
+    for (p, c) in &case.files {
+        let f = root.join(p);
+        std::fs::create_dir_all(f.parent().unwrap()).map_err(io)?;
+        std::fs::write(&f, c).map_err(io)?;
+    }
+    for p in &case.other {
+        let f = root.join(p);
+        std::fs::create_dir_all(f.parent().unwrap()).map_err(io)?;
+        std::fs::write(&f, "not lua").map_err(io)?;
+    }
+    std::fs::create_dir_all(&root).map_err(io)?;
+    std::fs::write(dir.join("conf.json5"), CLI_CONFIG).map_err(io)?;
+    let mut cmd = std::process::Command::new(bin);
+    cmd.current_dir(dir);
+    if case.command == "minify" {
+        cmd.args(["minify", "in", "out"]);
+    } else {
+        cmd.args(["process", "--config", "conf.json5", "in", "out"]);
+    }
+    let out = cmd.output().map_err(|e| format!("harness: cannot run {}: {}", bin.display(), e))?;
+    let said = format!("{}{}", String::from_utf8_lossy(&out.stdout), String::from_utf8_lossy(&out.stderr));
+    let what = format!("`darklua {}` on a tree with {} faulty file(s) of {}", case.command, case.faulty.len(), case.files.len());
+    if out.status.code().is_none() {
+        return Err(format!("{}: the command was killed by a signal\n{}", what, said));
+    }
+    if case.faulty.is_empty() != out.status.success() {
+        return Err(format!("{}: exit status {:?}\n{}", what, out.status.code(), said));
+    }
+    let mut expected_outputs = 0;
+    for (i, (p, c)) in case.files.iter().enumerate() {
+        let written = std::fs::read(dir.join("out").join(p));
+        if case.faulty.contains(&i) {
+            if written.is_ok() {
+                return Err(format!("{}: something was written for the faulty file `{}`", what, p));
+            }
+            if !said.contains(p.as_str()) {
+                return Err(format!("{}: the faulty file `{}` is not reported with its path\n{}", what, p, said));
+            }
+        } else {
+            expected_outputs += 1;
+            let alone = dl::process_one_named(c, CLI_CONFIG, "alone.lua").map_err(|e| format!("harness: {}", e))?;
+            match written {
+                Err(_) => return Err(format!("{}: no output at the mirrored path for the healthy file `{}` (the faulty ones: {:?})\n{}", what, p, case.faulty.iter().map(|i| &case.files[*i].0).collect::<Vec<_>>(), said)),
+                Ok(w) if w != alone.as_bytes() => return Err(format!("{}: the output of the healthy file `{}` differs from processing that file alone: {:?}", what, p, String::from_utf8_lossy(&w))),
+                Ok(_) => {}
+            }
+        }
+        if std::fs::read(root.join(p)).map_err(io)? != c.as_bytes() {
+            return Err(format!("{}: the input file `{}` was modified", what, p));
+        }
+    }
+    // nothing else is written
+    let mut count = 0;
+    let mut stack = vec![dir.join("out")];
+    while let Some(d) = stack.pop() {
+        let Ok(rd) = std::fs::read_dir(&d) else { continue };
+        for e in rd {
+            let e = e.map_err(io)?;
+            if e.file_type().map_err(io)?.is_dir() {
+                stack.push(e.path());
+            } else {
+                count += 1;
+            }
+        }
+    }
+    if count != expected_outputs {
+        return Err(format!("{}: {} files were written for {} healthy Lua files", what, count, expected_outputs));
+    }
+    Ok(())
+}
+
 /// Ok(true) when the tree has a file below a sub-directory
 fn check_cwd(case: &CwdCase, base: &Path) -> Result<bool, String> {
     struct Back(PathBuf);
@@ -1365,6 +1510,17 @@ fn check_cwd(case: &CwdCase, base: &Path) -> Result<bool, String> {
 }
 
 fn replay(v: &Value) -> Result<(), String> {
+    if v.get("kind").and_then(|k| k.as_str()) == Some("commands") {
+        let case = CliCase::from_json(v).ok_or("malformed C11 replay file")?;
+        let bin = cli_binary().ok_or("harness: no darklua binary at DLV_DARKLUA_BIN (./check --replay builds it)")?;
+        let base = PathBuf::from(std::env::var("VERIF_DIR").unwrap_or_else(|_| "/verif".into())).join(".work/c11cli-replay");
+        let _ = std::fs::create_dir_all(&base);
+        let dir = tempfile::tempdir_in(&base).map_err(|e| format!("harness: {}", e))?;
+        let r = check_cli(&bin, &case, dir.path());
+        drop(dir);
+        let _ = std::fs::remove_dir_all(&base);
+        return r;
+    }
     if v.get("kind").and_then(|k| k.as_str()) == Some("symlinks") {
         // the positions of the links are generated: the replay tries every position with a fixed tape
         let case = CwdCase::from_json(v.get("case").ok_or("malformed C11 replay file")?).ok_or("malformed C11 replay file")?;
